@@ -41,6 +41,7 @@ type isoDB struct {
 }
 
 type isoRun struct {
+	shared  *orbitdb.CreateDBOptions // when set, the caller reuses this one value for every Open
 	in      *IsolationInput
 	res     *Result
 	bid     string
@@ -79,7 +80,13 @@ func (r *isoRun) setup(tag string) error {
 		if i%2 == 1 {
 			writers = []string{"*"}
 		}
-		if d.local, err = r.inst.Open(fmt.Sprintf("%s-%s", tag, name), realType(d.stype), &orbitdb.CreateDBOptions{AccessController: sim.AccessFor(writers)}); err != nil {
+		opts := &orbitdb.CreateDBOptions{}
+		if r.shared != nil {
+			// one options value reused by the caller for every database it opens, one field changed
+			opts = r.shared
+		}
+		opts.AccessController = sim.AccessFor(writers)
+		if d.local, err = r.inst.Open(fmt.Sprintf("%s-%s", tag, name), realType(d.stype), opts); err != nil {
 			return err
 		}
 		if d.remote, err = r.rem.Open(d.local.Addr, realType(d.stype), nil); err != nil {
@@ -337,6 +344,10 @@ func (r *isoRun) burst() {
 }
 
 func (r *isoRun) run(b Behaviour, idx int) {
+	r.shared = nil
+	if idx%2 == 1 {
+		r.shared = &orbitdb.CreateDBOptions{}
+	}
 	if err := r.setup(fmt.Sprintf("iso%d", idx)); err != nil {
 		r.res.Inconclusive = append(r.res.Inconclusive, b.ID+": setup: "+err.Error())
 		return
@@ -383,7 +394,7 @@ func (r *isoRun) run(b Behaviour, idx int) {
 				r.violate("close-error", err.Error(), nil, nil)
 			}
 			d.local.Closed = true
-			nr, err := r.inst.Open(d.local.Addr, realType(d.stype), nil)
+			nr, err := r.inst.Open(d.local.Addr, realType(d.stype), r.shared)
 			if err != nil {
 				r.violate("reopen-error", err.Error(), nil, nil)
 				return
